@@ -13,8 +13,9 @@ Scheme cstmt_m := Induction for cstmt Sort Prop
   with cblk_m := Induction for cblk Sort Prop
   with celse_m := Induction for celse Sort Prop
   with ccases_m := Induction for ccases Sort Prop
-  with cparams_m := Induction for cparams Sort Prop.
-Combined Scheme cstmt_mutind from cstmt_m, cblk_m, celse_m, ccases_m, cparams_m.
+  with cparams_m := Induction for cparams Sort Prop
+  with cplur_m := Induction for cplur Sort Prop.
+Combined Scheme cstmt_mutind from cstmt_m, cblk_m, celse_m, ccases_m, cparams_m, cplur_m.
 
 (* ---- unfolding equations of the mutual definitions (cbn does not refold them) ---- *)
 Section Eqs.
@@ -25,7 +26,7 @@ Variable buf : bstr.
 Variable dv : bstr -> option value.
 Variable cl : bstr -> (bstr -> option value) -> option bstr.
 Notation sout' := (sout ij mode pt dv cl). Notation bout' := (bout ij mode pt dv cl). Notation eout' := (eout ij mode pt dv cl). Notation kout' := (kout ij mode pt dv cl).
-Notation pout' := (pout ij mode pt dv cl).
+Notation pout' := (pout ij mode pt dv cl). Notation qout' := (qout ij mode pt dv cl).
 Lemma sout_raw env t : sout' env (SRaw t) = Some (t, env). Proof. reflexivity. Qed.
 Lemma sout_print env e ds : sout' env (SPrint e ds)
   = match ceval ij env e with
@@ -116,6 +117,15 @@ Proof. reflexivity. Qed.
 Lemma sout_msg env body : sout' env (SMsg body)
   = if msg_ok body then match bout' env body with Some t => Some (t, env) | None => None end else None.
 Proof. reflexivity. Qed.
+Lemma sout_msgpl env pn v q : sout' env (SMsgPl pn v q)
+  = match ceval ij env v with
+    | Some (VInt i) => match qout' env i q with Some t => Some (t, env) | None => None end
+    | _ => None
+    end.
+Proof. reflexivity. Qed.
+Lemma qout_dflt env i b : qout' env i (QDflt b) = if msg_ok b then bout' env b else None. Proof. reflexivity. Qed.
+Lemma qout_case env i z b r : qout' env i (QCase z b r) = if (i =? z)%Z then (if msg_ok b then bout' env b else None) else qout' env i r.
+Proof. reflexivity. Qed.
 Lemma pout_nil env acc : pout' env PNil acc = Some acc. Proof. reflexivity. Qed.
 Lemma pout_val env k e r acc : pout' env (PVal k e r) acc
   = if is_ident k then match ceval ij env e with Some v => pout' env r (env_set acc k v) | None => None end else None.
@@ -177,6 +187,12 @@ Proof. reflexivity. Qed.
 Lemma sgen_call sc n name d ps : sgen' sc n (SCall name d ps) = let '(jps, n1) := pgen mode sc n ps in (JSCall buf name (dgen sc d) jps, (sc, n1)).
 Proof. reflexivity. Qed.
 Lemma sgen_msg sc n body : sgen' sc n (SMsg body) = let '(jb, n1) := bgen' sc n body in (JSSeq jb, (sc, n1)).
+Proof. reflexivity. Qed.
+Lemma sgen_msgpl sc n pn v q : sgen' sc n (SMsgPl pn v q) = let '(jk, n1) := qgen mode buf sc n q in (JSPlural (cgen sc v) jk, (sc, n1)).
+Proof. reflexivity. Qed.
+Lemma qgen_dflt sc n b : qgen mode buf sc n (QDflt b) = let '(jb, n1) := bgen' sc n b in (JKDefault jb, n1). Proof. reflexivity. Qed.
+Lemma qgen_case sc n z b r : qgen mode buf sc n (QCase z b r)
+  = let '(jb, n1) := bgen' sc n b in let '(jr, n2) := qgen mode buf sc n1 r in (JKCase (JENum z) [] jb jr, n2).
 Proof. reflexivity. Qed.
 Lemma pgen_nil sc n : pgen mode sc n PNil = (JPNil, n). Proof. reflexivity. Qed.
 Lemma pgen_val sc n k e r : pgen mode sc n (PVal k e r) = let '(jr, n1) := pgen mode sc n r in (JPVal k (cgen sc e) jr, n1). Proof. reflexivity. Qed.
@@ -258,6 +274,8 @@ Lemma js_exec_call env buf name d ps : js_exec env (JSCall buf name d ps)
   = (env1 <- jp_exec jfn env ps ;; dv <- js_call_data env1 d (jp_args ps) ;; r <- jfn name dv (js_ij_arg env1) ;; js_append_text env1 buf r).
 Proof. reflexivity. Qed.
 Lemma js_exec_seq env b : js_exec env (JSSeq b) = jb_exec env b. Proof. reflexivity. Qed.
+Lemma js_exec_plural env v cs : js_exec env (JSPlural v cs) = (sv <- js_eval env v ;; jk_exec env sv cs).
+Proof. reflexivity. Qed.
 Lemma jp_exec_cont env k g body r : jp_exec jfn env (JPCont k g body r) = (env1 <- jb_exec (jvset env g (JStr [])) body ;; jp_exec jfn env1 r).
 Proof. reflexivity. Qed.
 End ExecEqs.
@@ -488,7 +506,8 @@ Lemma sgen_mono_all mode :
   /\ (forall b buf sc n jb n', bgen mode buf sc n b = (jb, n') -> n <= n')
   /\ (forall e buf sc n jl n', egen mode buf sc n e = (jl, n') -> n <= n')
   /\ (forall k buf sc n jk n', kgen mode buf sc n k = (jk, n') -> n <= n')
-  /\ (forall ps sc n jps n', pgen mode sc n ps = (jps, n') -> n <= n').
+  /\ (forall ps sc n jps n', pgen mode sc n ps = (jps, n') -> n <= n')
+  /\ (forall q buf sc n jk n', qgen mode buf sc n q = (jk, n') -> n <= n').
 Proof.
   apply cstmt_mutind.
   - intros t buf sc n j sc' n' H. inversion H. lia.
@@ -515,6 +534,7 @@ Proof.
   - intros e sfx buf sc n j sc' n' H. inversion H. lia.
   - intros name d ps IHp buf sc n j sc' n' H. rewrite sgen_call in H. destruct (pgen mode sc n ps) as [jps n1] eqn:E1. inversion H; subst. eapply IHp; eauto.
   - intros body IHb buf sc n j sc' n' H. rewrite sgen_msg in H. destruct (bgen mode buf sc n body) as [jb n1] eqn:E1. inversion H; subst. eapply IHb; eauto.
+  - intros pn v q IHq buf sc n j sc' n' H. rewrite sgen_msgpl in H. destruct (qgen mode buf sc n q) as [jk n1] eqn:E1. inversion H; subst. eapply IHq; eauto.
   - intros buf sc n jb n' H. inversion H. lia.
   - intros s IHs r IHr buf sc n jb n' H. rewrite bgen_cons in H.
     destruct (sgen mode buf sc n s) as [j [sc1 n1]] eqn:E1. destruct (bgen mode buf sc1 n1 r) as [jr n2] eqn:E2. inversion H; subst.
@@ -534,6 +554,10 @@ Proof.
   - intros k body IHb r IHr sc n jps n' H. rewrite pgen_cont in H.
     destruct (bgen mode (jsc_name t_param (n + 1)) ([] :: sc) (n + 1) body) as [jb n1] eqn:E1. destruct (pgen mode sc n1 r) as [jr n2] eqn:E2. inversion H; subst.
     specialize (IHb _ _ _ _ _ E1). specialize (IHr _ _ _ _ E2). lia.
+  - intros b IHb buf sc n jk n' H. rewrite qgen_dflt in H. destruct (bgen mode buf sc n b) as [jb n1] eqn:E1. inversion H; subst. eapply IHb; eauto.
+  - intros z b IHb r IHr buf sc n jk n' H. rewrite qgen_case in H.
+    destruct (bgen mode buf sc n b) as [jb n1] eqn:E1. destruct (qgen mode buf sc n1 r) as [jr n2] eqn:E2. inversion H; subst.
+    specialize (IHb _ _ _ _ _ E1). specialize (IHr _ _ _ _ _ E2). lia.
 Qed.
 
 (* the scope and the counter after a statement *)
@@ -556,6 +580,7 @@ Proof.
   - inversion H; auto.
   - rewrite sgen_call in H. destruct (pgen mode sc n ps) as [jps n1]. inversion H; auto.
   - rewrite sgen_msg in H. destruct (bgen mode buf sc n body) as [jb n1]. inversion H; auto.
+  - rewrite sgen_msgpl in H. destruct (qgen mode buf sc n q) as [jk n1]. inversion H; auto.
 Qed.
 
 (* the names a statement binds are identifiers *)
@@ -564,7 +589,7 @@ Definition binder_ok (s : cstmt) : Prop :=
 Lemma sgen_after_ident mode buf sc n s j sc' n' : binder_ok s -> sgen mode buf sc n s = (j, (sc', n')) ->
   sc' = sc \/ (exists name, is_ident name = true /\ sc' = jsc_bind_pure sc name (jsc_name name (n + 1)) /\ n + 1 <= n').
 Proof.
-  intros Hb H. destruct s as [t|e ds|nm e|nm body|c th rest|v cs|x e body hasie ie|x a1 rest body hasie ie|e sfx|cname cd cps|mbody]; cbn [binder_ok] in Hb.
+  intros Hb H. destruct s as [t|e ds|nm e|nm body|c th rest|v cs|x e body hasie ie|x a1 rest body hasie ie|e sfx|cname cd cps|mbody|pn pv pq]; cbn [binder_ok] in Hb.
   - inversion H; auto.
   - inversion H; auto.
   - inversion H; subst. right. exists nm. split; [exact Hb|]. split; [reflexivity|lia].
@@ -580,6 +605,7 @@ Proof.
   - inversion H; auto.
   - rewrite sgen_call in H. destruct (pgen mode sc n cps) as [jps n1]. inversion H; auto.
   - rewrite sgen_msg in H. destruct (bgen mode buf sc n mbody) as [jb n1]. inversion H; auto.
+  - rewrite sgen_msgpl in H. destruct (qgen mode buf sc n pq) as [jk n1]. inversion H; auto.
 Qed.
 Lemma swf_binder lv s : swf lv s = true -> binder_ok s.
 Proof. destruct s; cbn [swf binder_ok]; auto; intro H; apply andb_prop in H; apply H. Qed.
@@ -746,6 +772,12 @@ Definition JP_p (ps : cparams) : Prop := forall buf sc n env je old base cenv m 
   exists je' vs, jp_exec jfn je jps = Ok je' /\ frame buf n je je' /\ assoc_s buf (je_vars je') = Some (JStr old)
     /\ js_eval_params je' (jp_args jps) = Ok vs
     /\ datarel cenv (JObj (fold_left (fun acc kv => aset acc (fst kv) (snd kv)) vs m)).
+
+(* the plural: the switch over the numbers runs the block of the selected body *)
+Definition JP_q (q : cplur) : Prop := forall buf sc n env je old text i jk n',
+  ginv sc n buf -> qout ij mode go_print_text denv callee env i q = Some text -> jinv buf sc env je old -> datarel denv (je_data je) ->
+  qgen mode buf sc n q = (jk, n') ->
+  exists je', jk_exec je (JNum i) jk = Ok je' /\ assoc_s buf (je_vars je') = Some (JStr (old ++ text)) /\ frame buf n je je'.
 
 (* a block is translated and run under one more (empty) frame *)
 Lemma JP_block b : JP_b b -> forall buf sc n env je old text jb n',
@@ -1030,7 +1062,7 @@ Proof. clear denv callee jfn. unfold small. intros Ha Hl H. apply Z.leb_le in Ha
 Hypothesis Hjcall : forall name cenv text jd ijv, callee name cenv = Some text -> datarel cenv jd ->
   (forall v, ij = Some v -> ijv = to_js v) -> jfn name jd ijv = Ok text.
 
-Theorem js_exec_all : (forall s, JP_s s) /\ (forall b, JP_b b) /\ (forall e, JP_e e) /\ (forall k, JP_k k) /\ (forall ps, JP_p ps).
+Theorem js_exec_all : (forall s, JP_s s) /\ (forall b, JP_b b) /\ (forall e, JP_e e) /\ (forall k, JP_k k) /\ (forall ps, JP_p ps) /\ (forall q, JP_q q).
 Proof.
   apply cstmt_mutind.
   - (* raw *) intros t buf sc n env je old text env' j sc' n' G E I DR Eg. rewrite sout_raw in E. rewrite sgen_raw in Eg. inversion E; subst. inversion Eg; subst.
@@ -1330,6 +1362,14 @@ Proof.
     destruct (bgen mode buf sc n body) as [jb n1] eqn:E1. inversion Eg; subst. clear Eg.
     destruct (IHb buf sc' n env' je old text jb n' G Et I DR E1) as (je' & X & Hb' & F).
     exists je'. rewrite js_exec_seq. split; [exact X|]. split; [eapply jinv_frame; eauto|exact F].
+  - (* msg with a plural *) intros pn v q IHq buf sc n env je old text env' j sc' n' G E I DR Eg. rewrite sout_msgpl in E. rewrite sgen_msgpl in Eg.
+    destruct (qgen mode buf sc n q) as [jk n1] eqn:E1. inversion Eg; subst. clear Eg.
+    destruct (ceval ij env v) as [sv|] eqn:Ev; [|discriminate]. destruct sv as [| | |i| | | |]; try discriminate E.
+    destruct (qout ij mode go_print_text denv callee env i q) as [t|] eqn:Et; [|discriminate]. inversion E; subst. clear E.
+    pose proof I as [ER Hb]. destruct (cgen_correct sc' ij env' je ER v (VInt i) Ev) as [Hj Hcv].
+    rewrite js_exec_plural, Hj. cbn [bind to_js].
+    destruct (IHq buf sc' n env' je old text i jk n' G Et I DR E1) as (je' & X & Hb' & F).
+    exists je'. split; [exact X|]. split; [eapply jinv_frame; eauto|exact F].
   - (* BNil *) intros buf sc n env je old text jb n' G E I DR Eg. rewrite bout_nil in E. rewrite bgen_nil in Eg. inversion E; subst. inversion Eg; subst.
     exists je. rewrite app_nil_r. split; [reflexivity|]. split; [apply I|apply frame_refl].
   - (* BCons *) intros s IHs r IHr buf sc n env je old text jb n' G E I DR Eg. rewrite bout_cons in E. rewrite bgen_cons in Eg.
@@ -1426,5 +1466,18 @@ Proof.
     cbn [jp_args js_eval_params js_eval].
     rewrite (proj2 F2 g); [|eapply bounded_mono; [|apply bounded_new]; exact Hn1|rewrite bstr_eqb_sym; exact Hbg].
     rewrite Hg1. cbn [bind]. rewrite Evs. reflexivity.
+  - (* QDflt *) intros b IHb buf sc n env je old text i jk n' G E I DR Eg. rewrite qout_dflt in E. rewrite qgen_dflt in Eg.
+    destruct (msg_ok b); [|discriminate].
+    destruct (bgen mode buf sc n b) as [jb n1] eqn:E1. inversion Eg; subst. clear Eg.
+    exact (IHb buf sc n env je old text jb n' G E I DR E1).
+  - (* QCase *) intros z b IHb r IHr buf sc n env je old text i jk n' G E I DR Eg. rewrite qout_case in E. rewrite qgen_case in Eg.
+    destruct (bgen mode buf sc n b) as [jb n1] eqn:E1. destruct (qgen mode buf sc n1 r) as [jr n2] eqn:E2. inversion Eg; subst. clear Eg.
+    rewrite jk_exec_case. cbn [jk_hit js_eval bind js_strict_eq].
+    pose proof (proj1 (proj2 (sgen_mono_all mode)) _ _ _ _ _ _ E1) as Hn1.
+    destruct (i =? z)%Z.
+    + destruct (msg_ok b); [|discriminate]. cbn [bind].
+      exact (IHb buf sc n env je old text jb n1 G E I DR E1).
+    + cbn [bind]. destruct (IHr buf sc n1 env je old text i jr n' (ginv_mono _ _ _ _ Hn1 G) E I DR E2) as (je' & X & Hb' & F).
+      exists je'. split; [exact X|]. split; [exact Hb'|]. eapply frame_trans; [exact Hn1|apply frame_refl|exact F].
 Qed.
 End JsStmts.
